@@ -340,6 +340,15 @@ func c19Gen(r *Run, rng *gen.Rng, corpus []string) *c19Inv {
 	default:
 		inv.Targets = []string{rng.Pick([]string{"bash", "batch"}), rng.Pick([]string{"bash", "batch"}), rng.Pick([]string{"bash", "batch"})}
 	}
+	if rng.Chance(2) {
+		// a target named very often: counts around the width of an exit status and of a byte
+		n := rng.Pick2([]int{255, 256, 256, 257})
+		t := rng.Pick([]string{"bash", "batch"})
+		inv.Targets = nil
+		for k := 0; k < n; k++ {
+			inv.Targets = append(inv.Targets, t)
+		}
+	}
 	// option vector: pairs in a random order, short/long spellings
 	type pair struct{ k, v string }
 	pairs := []pair{{rng.Pick([]string{"-i", "--in"}), inv.InArg}, {rng.Pick([]string{"-o", "--out"}), inv.OutArg}}
@@ -451,8 +460,14 @@ func c19Gen(r *Run, rng *gen.Rng, corpus []string) *c19Inv {
 	case 2:
 		args[0] = "/usr/bin/tsh"
 	}
+	if len(inv.Targets) > 8 {
+		// (the budgets are per process: an invocation that transpiles some hundred times gets more)
+		b.IO += 60 * len(inv.Targets)
+		b.Ticks += 2_000_000 * int64(len(inv.Targets))
+	}
 	inv.Spec = simrt.WorldSpec{Devices: devices, Files: files, Cwd: cwd, Exe: path.Join(exe, "tsh"), Args: args,
 		MapMode: rng.Pick([]string{"canonical", "reversed", "shuffle"}), MapSeed: rng.U64(), Epoch: int64(rng.Intn(1 << 30)), Budgets: &b}
+	inv.Spec.StdoutClosed = rng.Chance(3) // (tsh has nothing to say on standard output; if it has, nobody may be listening)
 	for _, f := range files {
 		if !f.Dir && f.Link == "" && (strings.HasPrefix(f.Path, mount+"/") && !strings.HasPrefix(f.Path, outAbs+"/") || strings.HasPrefix(f.Path, exe+"/")) {
 			inv.Protected = append(inv.Protected, f.Path)
@@ -1244,7 +1259,7 @@ func c19Round(r *Run, rng *gen.Rng, st *c19Stats, corpus []string, roundSize, sw
 		if len(ioEvents) == 0 {
 			continue
 		}
-		wantSweep := swept < sweepN && (rs.Exit == 0 || rng.Chance(25))
+		wantSweep := swept < sweepN && (rs.Exit == 0 || rng.Chance(25)) && len(ioEvents) <= 400
 		if wantSweep {
 			swept++
 			st.swept++
